@@ -84,7 +84,13 @@ def run_case(case):
         # the DDP distributor keeps its own masked lists: same shadow check on every simulated rank (worlds shared with C06)
         from . import c06
 
-        out = c06.run_case(case)
+        try:
+            out = c06.run_case(case)
+        except Violation as v:
+            # C06's known finding (0-D 16-bit parameter vs serial) says nothing about absent gradients: keep the shadow results
+            if v.witness.get("kind") != "zero_dim_update_wider_than_comm":
+                raise
+            out = {"counters": v.partial["counters"], "sigs": [], "sample": {"note": "C06 known finding hit; absent-parameter shadow still evaluated"}}
         c = out["counters"]
         c["ddp_absent_params_checked"] = c.pop("absent_params_checked", 0)
         c["ddp_worlds"] = c.pop("evals", 0)
